@@ -517,3 +517,34 @@ V('c07-segment-private-copy', 'C07', 'hl7apy/core.py',
   rule='C07-I')
 V('c07-fix-duplicates', 'C07', 'hl7apy/__init__.py', "    values = [v for k, v in encoding_chars.items() if k in required]",
   "    values = [v for k, v in encoding_chars.items() if k in required or k == 'TRUNCATION']", expect='fixed:C07-R|duplicates')
+
+# ---------------------------------------------------------------- C06
+V('c06-guard-loses-R', 'C06', 'hl7apy/base_datatypes.py', "r'(?<!%s[HNFSTRE])%s(?![HNFSTRE]%s)'", "r'(?<!%s[HNFSTE])%s(?![HNFSTE]%s)'")
+V('c06-lookahead-loses-T', 'C06', 'hl7apy/base_datatypes.py', "r'(?<!%s[HNFSTRE])%s(?![HNFSTRE]%s)'", "r'(?<!%s[HNFSTRE])%s(?![HNFSRE]%s)'")
+V('c06-v27-guard-without-L', 'C06', 'hl7apy/v2_7/base_datatypes.py', "r'(?<!%s[HNFSTREL])%s(?![HNFSTREL]%s)'",
+  "r'(?<!%s[HNFSTRE])%s(?![HNFSTRE]%s)'")
+V('c06-drop-repetition-translation', 'C06', 'hl7apy/base_datatypes.py',
+  "                (encoding_chars['SUBCOMPONENT'], '{esc}T{esc}'.format(esc=escape_char)),\n                (encoding_chars['REPETITION'], '{esc}R{esc}'.format(esc=escape_char)),)",
+  "                (encoding_chars['SUBCOMPONENT'], '{esc}T{esc}'.format(esc=escape_char)),)", rule='C06-P1')
+V('c06-wrong-letter', 'C06', 'hl7apy/base_datatypes.py',
+  "                (encoding_chars['SUBCOMPONENT'], '{esc}T{esc}'.format(esc=escape_char)),",
+  "                (encoding_chars['SUBCOMPONENT'], '{esc}X{esc}'.format(esc=escape_char)),")
+V('c06-unterminated-sequence', 'C06', 'hl7apy/base_datatypes.py',
+  "        return ((encoding_chars['FIELD'], '{esc}F{esc}'.format(esc=escape_char)),",
+  "        return ((encoding_chars['FIELD'], '{esc}F'.format(esc=escape_char)),")
+V('c06-replacement-template', 'C06', 'hl7apy/base_datatypes.py', "                       lambda x: '{esc}E{esc}'.format(esc=escape_char), value)",
+  "                       lambda x: '{esc}{esc}'.format(esc=escape_char), value)")
+V('c06-escape-before-delimiters', 'C06', 'hl7apy/base_datatypes.py',
+  "        for char, esc_seq in translations:\n            value = value.replace(char, esc_seq)\n",
+  "", expect='violation')
+V('c06-sub-before-replace', 'C06', 'hl7apy/base_datatypes.py',
+  "        for char, esc_seq in translations:\n            value = value.replace(char, esc_seq)\n",
+  "        value = re.sub(self._get_escape_char_regex(escape_char),\n                       lambda x: '{esc}E{esc}'.format(esc=escape_char), value)\n        for char, esc_seq in translations:\n            value = value.replace(char, esc_seq)\n        return value\n",
+  expect='violation')
+V('c06-v27-table-loses-truncation', 'C06', 'hl7apy/v2_7/base_datatypes.py',
+  "                    (encoding_chars['REPETITION'], '{esc}R{esc}'.format(esc=escape_char)),\n                    (encoding_chars['TRUNCATION'], '{esc}L{esc}'.format(esc=escape_char)),)",
+  "                    (encoding_chars['REPETITION'], '{esc}R{esc}'.format(esc=escape_char)),)", rule='C06-P1')
+V('c06-subcomponent-ignores-chars', 'C06', 'hl7apy/core.py', "            return self.value.to_er7(encoding_chars)", "            return self.value.to_er7()",
+  rule='C06-D')
+V('c06-twin-raw-string', 'C06', 'hl7apy/base_datatypes.py', "r'(?<!%s[HNFSTRE])%s(?![HNFSTRE]%s)'", "r'(?<!%s[EHNFSTR])%s(?![EHNFSTR]%s)'",
+  expect='clean')
